@@ -265,7 +265,6 @@ def wire_facts(p, srv):
 def judge_a(case, o):
     kex, scenario, order, method, point = case
     v = []
-    where = "%s/%s" % (scenario, "pre-start" if point == "pre-start" else "mid")
     if o["outcome"] not in ("ok",):
         return [("A:no-quiescence(%s):%s" % (o["outcome"], method), o["error"])]
     bad_plain = [t for t in o["plaintext_types"] if t in AUTH_TYPES]
